@@ -448,6 +448,8 @@ func (ex *executor) execInstr(st *state, in ssa.Instruction) {
 		if _, isMap := t.X.Type().Underlying().(*types.Map); isMap {
 			cls := ex.visitedClass(t)
 			st.heaps[cls.Name] = &Heap{kind: hConst, id: nextHeapID(), cls: cls, val: False}
+			ncls := ex.nvisitedClass(t)
+			st.heaps[ncls.Name] = &Heap{kind: hConst, id: nextHeapID(), cls: ncls, val: BVI(0, 64)}
 		}
 	case *ssa.Next:
 		ex.execNext(st, t)
@@ -1166,6 +1168,13 @@ func (ex *executor) execNext(st *state, t *ssa.Next) {
 		ex.assume(st, Implies(Not(ok), Forall(bvs, Implies(inb, vh.Read(bvs)))))
 	}
 	st.heaps[vcls.Name] = HeapIte(ok, vh.Store(k.C, True), vh)
+	// nvisited(): the number of keys produced so far; a map never holds 2^maxLenBits entries, and the
+	// body may only delete keys, so fewer than that many are ever produced
+	ncls := ex.nvisitedClass(rng)
+	nh := ex.heapOf(st, ncls)
+	nv := nh.Read(nil)
+	ex.assume(st, And(BVCmp("bvsge", nv, BVI(0, 64)), Implies(ok, BVCmp("bvslt", nv, BVI(1<<maxLenBits, 64)))))
+	st.heaps[ncls.Name] = HeapIte(ok, nh.Store(nil, BVBin("bvadd", nv, BVI(1, 64))), nh)
 	// an empty map yields no element
 	_, _, lnc := ex.mapClassesFor(mt)
 	ln := ex.heapOf(st, lnc).Read([]*Term{it.C[0]})
@@ -1231,6 +1240,12 @@ func (ex *executor) visitedClass(r *ssa.Range) *HeapClass {
 	}
 	name := fmt.Sprintf("R:%s:%d:visited", fnKey(r.Parent()), idx)
 	return ex.eng.class(name, shapeOf(m.Key()), BoolSort, false)
+}
+
+// nvisitedClass: ghost counter of the keys already produced by a map range statement.
+func (ex *executor) nvisitedClass(r *ssa.Range) *HeapClass {
+	v := ex.visitedClass(r)
+	return ex.eng.class("R:"+strings.TrimPrefix(strings.TrimSuffix(v.Name, ":visited"), "R:")+":nvisited", nil, BV(64), false)
 }
 
 // yield: a point where the goroutine may block and others run. Everything except this
